@@ -22,7 +22,9 @@ RULE = ('Echo: KEEPALIVE frames (respond flag 0/1, data 0-200 bytes, 63-bit posi
         'the last one when the server goes silent. Busy client: one 3-12 kB request fragmented at 64 bytes over a link on '
         'which every write takes 1-5 ms (the transfer spans several periods P in {20, 50, 100} ms), acknowledged '
         'keepalives: consecutive respond-flagged KEEPALIVEs are never further apart than P plus three write times and '
-        'no timeout is reported. Non-trivial = a pattern that stops, or a respond-flagged echo with '
+        'no timeout is reported. After a timeout: the handler reconnects from on_keepalive_timeout onto a transport whose '
+        'connect() may suspend; on the new connection SETUP goes out, KEEPALIVEs run at period P, and a second silent '
+        'server is detected again while an acknowledging one is not. Non-trivial = a pattern that stops, or a respond-flagged echo with '
         'data; distinct = case hash.')
 ASSUMPTIONS = ['virtual clock: loop.time() and datetime.now() of rsocket.rsocket_client', 'gaps are generated off the exact '
                'boundaries L and 2L (the statement does not fix them); how often the timeout fires is not judged']
@@ -224,10 +226,65 @@ def judge_busy(case):
     return out, during >= 2, ['part=busy', 'keepalives_during_transfer=%s' % (during if during < 5 else '5+')]
 
 
+@st.composite
+def reconnect_cases(draw):
+    """The keepalive machinery on the connection made after a timeout: the handler reconnects from on_keepalive_timeout."""
+    P = draw(st.sampled_from([20, 50, 100]))
+    return {'after_timeout': True, 'P': P, 'L': P * draw(st.sampled_from([3, 4, 6])),
+            'connect': draw(st.sampled_from([None, ['ticks', 1], ['ticks', 3], ['time', 0.005], ['time', 0.02]])),
+            'second_silent': draw(st.booleans()), 'msg': draw(st.booleans())}
+
+
+def judge_after_timeout(case):
+    P, L = case['P'], case['L']
+    ops = [['tick', 3], ['mark', 'start'], ['adv', 2.3 * L], ['tick', 4], ['settle'], ['mark', 'second']]
+    t = 0.0
+    while t < 3.2 * L:
+        ops.append(['adv', 0.4 * L])
+        if not case['second_silent']:
+            ops.append(['rawframe', {'type': 'KEEPALIVE', 'sid': 0, 'respond': False, 'position': 0, 'data': b''}])
+        t += 0.4 * L
+    ops += [['tick', 2], ['mark', 'end']]
+    prog = {'cfg': {'msg': case['msg'], 'frag': [None, None], 'rbuf': [1024, 1024], 'raw': 's', 'ka': P / 1000.0, 'life': L / 1000.0,
+                    'transports': 2, 'on_ka_timeout': 'reconnect', 'connect': [None, case['connect']]},
+            'inter': [], 'ops': ops, 'heal': False}
+    tr = run_program(prog)
+    out = []
+    log = tr.world.log
+    marks = {e['name']: e for e in log if e['ev'] == 'mark'}
+    timeouts = [e for e in log if e['ev'] == 'on_keepalive_timeout']
+    facts = dict(P_ms=P, L_ms=L, connect=case['connect'], second_silent=case['second_silent'])
+    if not timeouts or timeouts[0]['seq'] > marks['second']['seq']:
+        out.append(viol('keepalive_timeout_not_detected', 'C15:timeout_missed:first_connection', **facts))
+        return out, True, ['part=after_timeout']
+    second = [e for e in tr.world.wire.get('c', []) if e.get('cx') == 1]
+    if not any(e['f']['type'] == 'SETUP' for e in second):
+        out.append(viol('no_setup_after_timeout_reconnect', 'C15:after_timeout:no_setup', **facts))
+    kas = [e for e in second if e['f']['type'] == 'KEEPALIVE' and e['f'].get('respond')]
+    later = [e for e in timeouts if e['seq'] > marks['second']['seq']]
+    alive_until = later[0]['t'] if later else marks['end']['t']
+    t0 = next((e['t'] for e in log if e['ev'] == 'transport_connect_end' and e.get('cx') == 1), None)
+    if t0 is not None:
+        expected = int((alive_until - t0) / (P / 1000.0) + 1e-9)
+        if abs(len([e for e in kas if e['t'] <= alive_until + 1e-9]) - expected) > 1:
+            out.append(viol('keepalive_count_wrong', 'C15:after_timeout:count', sent=len(kas), expected=expected, **facts))
+    if case['second_silent'] and not later:
+        out.append(viol('keepalive_timeout_not_detected', 'C15:timeout_missed:second_connection', **facts))
+    if not case['second_silent'] and later:
+        out.append(viol('false_keepalive_timeout', 'C15:false_timeout:second_connection', **facts))
+    for err in tr.loop_errors:
+        out.append(viol('unhandled_exception', 'C15:loop_error:%s' % err.get('type'), **err))
+    return out, True, ['part=after_timeout', 'connect_suspends=%s' % bool(case['connect'])]
+
+
 info = {}
 
 
 def prop(case):
+    if case.get('after_timeout'):
+        vs, nt, classes = judge_after_timeout(case)
+        info['nt'], info['classes'] = nt, classes
+        return vs
     if case.get('busy'):
         vs, nt, classes = judge_busy(case)
         info['nt'], info['classes'] = nt, classes
@@ -245,7 +302,7 @@ def shard(tier, seed, n, which):
     common.use_repo()
     stats = common.Stats()
     known = common.Known(PID)
-    strat = {'echo': echo_cases, 'timing': timing_cases, 'busy': busy_cases}[which]()
+    strat = {'echo': echo_cases, 'timing': timing_cases, 'busy': busy_cases, 'after_timeout': reconnect_cases}[which]()
     common.hyp_search(stats, known, strat, prop, n, seed, classify=classify)
     return stats
 
@@ -256,6 +313,7 @@ def run(tier, seed):
     seeds = common.shard_seeds(seed, common.NPROC)
     jobs = [dict(tier=tier, seed=s, n=total // len(seeds), which='echo' if i % 3 == 0 else 'timing') for i, s in enumerate(seeds)]
     jobs += [dict(tier=tier, seed=s + 31, n=(64 if tier == 'quick' else 1600) // 4, which='busy') for s in seeds[:4]]
+    jobs += [dict(tier=tier, seed=s + 47, n=(96 if tier == 'quick' else 2400) // 4, which='after_timeout') for s in seeds[:4]]
     stats = common.run_shards(__name__, 'shard', jobs)
     return common.finish(PID, tier, seed, LEVEL, RULE, stats, t0, ASSUMPTIONS)
 
